@@ -1,6 +1,8 @@
-(* C20 — policy containers behave as an id-keyed map.  Proofs: Proofs/PolicySetProofs.v. *)
-From Coq Require Import ZArith List Bool Permutation Sorted.
-From Cedar Require Import Lang.Value Impl.Authorize Impl.PolicySet Proofs.PolicySetProofs.
+(* C20 — policy containers behave as an id-keyed map.  Proofs: Proofs/PolicySetProofs.v (one step), Proofs/PolicySetHistory.v (every
+   history of operations; the document loader). *)
+From Coq Require Import ZArith List Bool Permutation Sorted String.
+Import ListNotations.
+From Cedar Require Import Lang.Value Impl.Authorize Impl.PolicySet Proofs.PolicySetProofs Proofs.PolicySetHistory.
 
 (* Add (insert or replace) and Remove refine the abstract map, and keep ids unique *)
 Theorem C20_add_refines : forall s k h x, abs (ps_set s k h) x = f_set (abs s) k h x.
@@ -30,6 +32,43 @@ Proof. exact authorize_contents_only. Qed.
 Example C20_policy10_before_policy2 : str_ltb (policy_id 10) (policy_id 2) = true.
 Proof. vm_compute. reflexivity. Qed.
 
+(* EVERY HISTORY.  spec_next f o f' / spec_out f o r (Proofs/PolicySetHistory.v): the map after an operation and the answer the plain
+   id -> policy map model predicts (Add / Remove: was the id new / present; Get: the binding; All / Map / JSON round trip: THE strictly
+   id-sorted enumeration of the map; MarshalCedar: its policies in that order; loading a document / a JSON document / a text round trip: the
+   enumeration of the new map; Authorize: the decision, reasons and errors of any enumeration, which do not depend on it).  After any
+   sequence of operations, from any state with unique ids - in particular from the empty set - every answer is the predicted one and the
+   state is the predicted map. *)
+Theorem C20_every_history : forall eff ev ops s, uniq s -> history_ok eff ev (abs s) ops (run eff ev s ops).
+Proof. exact run_refines. Qed.
+Theorem C20_every_history_from_empty : forall eff ev ops,
+  history_ok eff ev f_empty ops (run eff ev [] ops) /\ uniq (run_state eff ev [] ops) /\ spec_run f_empty ops (abs (run_state eff ev [] ops)).
+Proof. exact history_from_empty. Qed.
+(* the prediction is unique: the map after an operation up to pointwise equality, the answer up to the order of reason / error ids *)
+Theorem C20_prediction_unique : forall f o f1 f2, spec_next f o f1 -> spec_next f o f2 -> feq f1 f2.
+Proof. exact spec_next_functional. Qed.
+(* two sets holding the same bindings stay indistinguishable under every history *)
+Theorem C20_contents_only : forall eff ev ops s1 s2, uniq s1 -> uniq s2 -> feq (abs s1) (abs s2) ->
+  forall k, ps_get (run_state eff ev s1 ops) k = ps_get (run_state eff ev s2 ops) k.
+Proof. exact lookup_after_history. Qed.
+
+(* THE LOADER.  The i-th policy of a document gets the id policy<i> - the decimal numeral of i without leading zeros -, ids are pairwise
+   distinct and there are no others *)
+Theorem C20_loader_ids : forall hs, uniq (number_from 0 hs) /\ (forall i, ps_get (number_from 0 hs) (policy_id i) = nth_error hs i) /\
+  (forall k h, ps_get (number_from 0 hs) k = Some h -> exists i, k = policy_id i /\ nth_error hs i = Some h).
+Proof. exact loader_ids. Qed.
+Theorem C20_policy_id_is_decimal : forall i, exists ds, policy_id i = s_of "policy" ++ ds /\ ds <> [] /\ Forall (fun c => 48 <= c <= 57)%Z ds /\
+  (ds = [48%Z] \/ hd 0%Z ds <> 48%Z) /\ Z.of_nat i = fold_left (fun acc c => acc * 10 + (c - 48))%Z ds 0%Z.
+Proof. exact policy_id_digits. Qed.
+Theorem C20_policy_id_injective : forall i j, policy_id i = policy_id j -> i = j.
+Proof. exact policy_id_inj. Qed.
+
+Print Assumptions C20_every_history.
+Print Assumptions C20_every_history_from_empty.
+Print Assumptions C20_prediction_unique.
+Print Assumptions C20_contents_only.
+Print Assumptions C20_loader_ids.
+Print Assumptions C20_policy_id_is_decimal.
+Print Assumptions C20_policy_id_injective.
 Print Assumptions C20_add_refines.
 Print Assumptions C20_remove_refines.
 Print Assumptions C20_add_keeps_unique.
